@@ -231,6 +231,13 @@ def dateparse(val: str, t: type[DateTimeT]) -> DateTimeT:
             If `val` is not a date string or does not resolve to an instance of
             the target datetime type.
     """
+    # What we wrote with `isoformat()` reads back exactly with `fromisoformat()`:
+    #   pendulum drops the offset of a time and rejects offsets with seconds.
+    if issubclass(t, (datetime.datetime, datetime.time)):
+        with contextlib.suppress(ValueError):
+            exact = t.fromisoformat(val)
+            if exact.tzinfo is not None:
+                return exact  # type: ignore[return-value]
     try:
         # When `exact=False`, the only two possibilities are DateTime and Duration.
         parsed: pendulum.DateTime | pendulum.Duration = pendulum.parse(val)  # type: ignore[assignment]
